@@ -259,6 +259,12 @@ def c03(kind, case, r):
             for d in c.get("deps", []):
                 if d not in done_at or done_at[d] > first_body[i]:
                     return "call %d started at step %d before its input %d finished" % (i, first_body[i], d)
+    if not has_fail(case) and r["verdict"] in ("done", "quiescent"):
+        for i in submitted_ids(r):
+            deps = case["calls"][i - 1].get("deps", [])
+            if deps and r["futures"].get(str(i), "pending") == "pending" and \
+                    all(str(r["futures"].get(str(d), "")).startswith("res:") for d in deps):
+                return "call %d never runs although all its inputs %r hold results (everything has come to rest)" % (i, deps)
     bad = deps_closure_failed(case)
     for i_s, v in r["values"].items():
         i = int(i_s)
